@@ -640,6 +640,9 @@ func c11GenPols(r *rand.Rand, related []c11Auth, viaLen int, hdrPool []string) [
 			ps = append(ps, c11Pol{kind: "copy", list: l})
 		}
 	}
+	if r.Intn(8) == 0 { // degenerate arguments as a class: nil cells anywhere, empty lists, duplicates, Max(n<=0)
+		ps = c11Degenerate(r, ps)
+	}
 	return ps
 }
 
